@@ -64,14 +64,26 @@ package main
 //@   atcall Errorf before: assert @C17: err == nil || addrFree(err)
 //@   atcall Warnf before: assert @C17: err == nil || addrFree(err)
 //@   atcall time.Sleep before: snap gaveUp := true
+// C04 (recognition under any segmentation, handler side): the bytes of every successful Read are appended to the
+// buffer that is offered to the transports, and the handler never reads again before everything read so far has been
+// offered to a transport still in play (offeredAt: bytes read when WrapConnection was last called); on a match the
+// registration is marked active and exactly the matched registration and wrapped connection go to the relay.
+//@   atcall WrapConnection before: assert @C04: arg1 == &received && arg2 == clientConn
+//@   atcall WrapConnection before: snap offeredAt := nread(clientConn)
+//@   atcall Read before: assert @C04: nread(clientConn) == old(nread(clientConn)) || (defined(offeredAt) && offeredAt == nread(clientConn))
+//@   atcall MarkActive before: assert @C04: arg1 == reg
+//@   atcall Proxy before: assert @C04: defined(matched) && arg0 == reg && arg1 == wrapped && reg != nil && wrapped != nil
 //@   ensures @C03: !defined(matched) && !defined(gaveUp) ==> nwrites(clientConn) == old(nwrites(clientConn)) && closed(clientConn) == old(closed(clientConn))
 //@   ensures @C03: defined(deadlineAsked) && !defined(matched) && !defined(gaveUp) ==> rdEnded(clientConn)
 //@ loop 1:
+//@   invariant nread(clientConn) == old(nread(clientConn)) || (defined(offeredAt) && offeredAt == nread(clientConn))
 //@   invariant cm != nil && cm.connStats != nil && regManager != nil && clientConn != nil && regManager.registeredDecoys != nil
 //@   invariant nwrites(clientConn) == old(nwrites(clientConn)) && closed(clientConn) == old(closed(clientConn))
 //@   invariant possibleTransports != nil && (forall k pb.TransportType :: k in possibleTransports ==> possibleTransports[k] != nil)
 //@   invariant !held(&regManager.registeredDecoys.m) && rheld(&regManager.registeredDecoys.m) == 0
 //@ loop 2:
+//@   invariant inrange(possibleTransports) || len(possibleTransports) >= 1
+//@   invariant inrange(possibleTransports) ==> defined(offeredAt) && offeredAt == nread(clientConn)
 //@   invariant cm != nil && cm.connStats != nil && regManager != nil && clientConn != nil && regManager.registeredDecoys != nil
 //@   invariant nwrites(clientConn) == old(nwrites(clientConn)) && closed(clientConn) == old(closed(clientConn))
 //@   invariant possibleTransports != nil && (forall k pb.TransportType :: k in possibleTransports ==> possibleTransports[k] != nil)
